@@ -82,6 +82,8 @@ struct World {
     reap_seen_at_call: Option<usize>, // index in `calls` of the waitpid that carried the pid or ECHILD
     waitpids: usize,
     sleeps: Vec<u64>,
+    stalled_calls: u64,      // consecutive calls during which the virtual clock did not move
+    spin: Option<String>,    // set when the library was caught busy-waiting (and the clock was pushed on to end the case)
 }
 
 impl World {
@@ -92,7 +94,25 @@ impl World {
         self.reaped || self.ext_reap_at.map_or(false, |t| self.now >= t && self.exited())
     }
     fn tick(&mut self) {
+        let before = self.now;
         self.now += self.rng.below(self.lat_max + 1);
+        self.note_progress(before);
+    }
+    /// a library that polls without letting time pass (sleep(0), or no sleep at all) would never end under a
+    /// virtual clock: after 3000 such calls it is recorded as busy-waiting and the clock is pushed on
+    fn note_progress(&mut self, before: u64) {
+        if self.now != before {
+            self.stalled_calls = 0;
+            return;
+        }
+        self.stalled_calls += 1;
+        if self.stalled_calls > 3000 {
+            if self.spin.is_none() {
+                self.spin = Some(format!("{} consecutive system calls without time passing (last: {})", self.stalled_calls, self.calls.last().cloned().unwrap_or_default()));
+            }
+            self.now += 200 * MS;
+            self.stalled_calls = 0;
+        }
     }
     fn canon(&self, p: pid_t) -> i64 {
         if p == self.pid {
@@ -175,7 +195,9 @@ impl Kernel for World {
     fn sleep(&mut self, ns: u64) -> Ans<()> {
         self.calls.push(format!("sleep:{}", ns));
         self.sleeps.push(ns);
+        let before = self.now;
         self.now += ns + self.rng.below(self.jitter_max + 1);
+        self.note_progress(before);
         self.resps.push("ok".into());
         Ans::Ret(())
     }
@@ -219,6 +241,7 @@ struct Case {
     eintr_pm: u64,
     foreign_pm: u64,
     wseed: u64,
+    setpgid: bool, // the child was started as the leader of its own process group
 }
 
 const DURS: [u64; 12] = [
@@ -297,6 +320,7 @@ fn gen_case(rng: &mut Rng, idx: usize) -> Case {
         eintr_pm: *rng.pick(&[0, 0, 0, 100]),
         foreign_pm: *rng.pick(&[0, 0, 0, 0, 150]),
         wseed: rng.next(),
+        setpgid: rng.chance(1, 3),
     }
 }
 
@@ -309,7 +333,7 @@ pub struct CaseResult {
 
 fn run_case(c: &Case) -> CaseResult {
     // a real Popen: /bin/true exits at once and stays a zombie until the harness reaps it for real
-    let mut p = Popen::create(&["/bin/true"], PopenConfig::default()).expect("spawn /bin/true");
+    let mut p = Popen::create(&["/bin/true"], PopenConfig { setpgid: c.setpgid, ..PopenConfig::default() }).expect("spawn /bin/true");
     let pid = p.pid().unwrap() as pid_t;
     let mut w = World {
         pid,
@@ -330,6 +354,8 @@ fn run_case(c: &Case) -> CaseResult {
         reap_seen_at_call: None,
         waitpids: 0,
         sleeps: vec![],
+        stalled_calls: 0,
+        spin: None,
     };
     let mut rets: Vec<String> = vec![];
     let mut oracle: Vec<(String, String)> = vec![];
@@ -538,9 +564,19 @@ fn run_case(c: &Case) -> CaseResult {
     for k in &w.kills_after_reap {
         oracle.push(("C10".into(), k.clone()));
     }
+    if let Some(m) = &w.spin {
+        oracle.push(("C11".into(), format!("busy-waiting: {}", m)));
+    }
     for (kp, _) in &w.kills {
         if *kp != pid {
-            oracle.push(("C10".into(), format!("kill sent to pid {} which is not the child", kp)));
+            oracle.push((
+                "C10".into(),
+                format!(
+                    "a signal was sent to {} which is not the child's process id{}",
+                    if *kp == -pid { "the child's whole process group".to_string() } else { format!("pid {}", kp) },
+                    if c.setpgid { " (child started with setpgid)" } else { "" }
+                ),
+            ));
         }
     }
     // reap the real child
